@@ -173,6 +173,35 @@ def build_tuner_harness(outdir, scratchdir, cmds, with_server=False):
     return bins
 
 
+def build_datagen_harness(outdir, scratchdir, cmds):
+    """tools/datagen is a separate module with un-fetchable deps (gRPC, sqlite): the client package (the game
+    loop) is copied unmodified into a scratch module of the same name, next to the repository's own
+    shim/config.go and shim/game.go and a stand-in for the gRPC client (datagen/stubs/shim)."""
+    mod = os.path.join(scratchdir, "datagenmod")
+    os.makedirs(mod)
+    with open(os.path.join(mod, "go.mod"), "w") as f:
+        f.write("module github.com/paulsonkoly/chess-3/tools/datagen\n\ngo 1.25.4\n\n"
+                "require github.com/paulsonkoly/chess-3 v0.0.0\n\n"
+                "replace github.com/paulsonkoly/chess-3 => %s\n" % REPO)
+    shutil.copy(os.path.join(REPO, "go.sum"), os.path.join(mod, "go.sum"))
+    shutil.copytree(os.path.join(REPO, "tools", "datagen", "client"), os.path.join(mod, "client"), ignore=shutil.ignore_patterns("*_test.go"))
+    os.makedirs(os.path.join(mod, "shim"))
+    for fn in ("config.go", "game.go"):
+        shutil.copy(os.path.join(REPO, "tools", "datagen", "shim", fn), os.path.join(mod, "shim", fn))
+    shutil.copy(os.path.join(VERIF, "datagen", "stubs", "shim", "client.go"), os.path.join(mod, "shim", "client.go"))
+    os.makedirs(os.path.join(mod, "verifgen"))
+    shutil.copy(os.path.join(VERIF, "harness", "internal", "gen", "gen.go"), os.path.join(mod, "verifgen", "gen.go"))
+    bins = {}
+    for c in cmds:
+        shutil.copytree(os.path.join(VERIF, "datagen", c), os.path.join(mod, "verifcmd", c))
+        out = os.path.join(outdir, c)
+        p = run(["go", "build", "-tags", "verif", "-o", out, "./verifcmd/" + c], cwd=mod, env=goenv(), timeout=900, check=False)
+        if p.returncode != 0:
+            raise Infra("go build failed for datagen cmd %s:\n%s" % (c, p.stderr[-4000:]))
+        bins[c] = out
+    return bins
+
+
 # ---------------------------------------------------------------- TLC
 
 def java_cmd(heap="1g", young="256m", extra_props=()):
